@@ -31,6 +31,10 @@
 #include "celeritas/phys/Primary.hh"
 #include "celeritas/phys/detail/TrackingCutExecutor.hh"
 #include "celeritas/track/SimTrackView.hh"
+#include "corecel/sys/ActionInterface.hh"
+#include "celeritas/track/StatusChecker.hh"
+#include "celeritas/track/StatusCheckData.hh"
+#include "celeritas/track/detail/StatusCheckExecutor.hh"
 
 #include "problems.hh"
 
@@ -423,6 +427,99 @@ int main()
                         os << ' ' << (s ? 1 : 0) << ' ' << hex(s.energy.value());
                     }
                 }
+            }
+            else if (kind == "statuscheck")
+            {
+                // statuscheck <order> <prev status> <prev post class> <prev along>
+                //             <cur status> <cur step inf> <cur post class> <cur along>
+                // classes: -1 invalid, 0 boundary, 1 range, 2 discrete, 3 tracking cut,
+                // 4 failure, 5 propagation limit, 6 first model; along: -1 invalid,
+                // 0 neutral, 1 user
+                int order, ps, pp, pa, cs, inf, cp, ca;
+                is >> order >> ps >> pp >> pa >> cs >> inf >> cp >> ca;
+                auto& fx = get_p1(0, 0.01, 1000, 0.01);
+                auto state = fx.make_state(
+                    ParticleId{0}, 1.0, {0.5, 0.25, -1}, {0, 0, 1});
+                CoreTrackView track(
+                    fx.core->host_ref(), state->ref(), ThreadId{0});
+                auto sim = track.make_sim_view();
+                auto phys = track.make_physics_view();
+                auto post_id = [&](int c) {
+                    if (c < 0)
+                        return ActionId{};
+                    if (c == 6)
+                        return phys.model_to_action(ModelId{0});
+                    return class_action(track, c);
+                };
+                auto along_id = [&](int c) {
+                    if (c < 0)
+                        return ActionId{};
+                    return c == 0 ? track.core_scalars().along_step_neutral_action
+                                  : track.core_scalars().along_step_user_action;
+                };
+                // the REAL order table (StatusChecker::begin_run_impl, libceleritas)
+                StatusChecker chk(ActionId{0}, AuxId{0});
+                chk.begin_run(*fx.core, *state);
+                StatusCheckStateData<Ownership::value, MemSpace::host> sv;
+                resize(&sv, chk.host_ref(), StreamId{0}, 1);
+                StatusCheckStateData<Ownership::reference, MemSpace::host> sref;
+                sref = sv;
+                sref.action = fx.core->action_reg()->find_action("pre-step");
+                sref.order = static_cast<StepActionOrder>(order);
+                sref.status[TrackSlotId{0}] = static_cast<TrackStatus>(ps);
+                sref.post_step_action[TrackSlotId{0}] = post_id(pp);
+                sref.along_step_action[TrackSlotId{0}] = along_id(pa);
+                sim.status(static_cast<TrackStatus>(cs));
+                sim.reset_step_limit(StepLimit{
+                    inf ? std::numeric_limits<real_type>::infinity() : 1.5,
+                    post_id(cp)});
+                sim.along_step_action(along_id(ca));
+                int code = 0;
+                try
+                {
+                    detail::StatusCheckExecutor{chk.host_ref(), sref}(track);
+                }
+                catch (std::exception const& e)
+                {
+                    std::string m = e.what();
+                    code = m.find("improperly reverted") != std::string::npos ? 1
+                           : m.find("cannot be 'initializing'") != std::string::npos
+                               ? 2
+                           : m.find("missing post-step") != std::string::npos ? 3
+                           : m.find("missing along-step") != std::string::npos ? 4
+                           : m.find("cannot yet change") != std::string::npos ? 5
+                           : m.find("out of order") != std::string::npos   ? 6
+                                                                           : 99;
+                }
+                os << "ok " << code;
+                auto put = [&](ActionId a) {
+                    os << ' ' << static_cast<int>(a.unchecked_get()) << ' '
+                       << static_cast<int>(chk.host_ref().orders[a]);
+                };
+                for (int c = 0; c <= 6; ++c)
+                    put(post_id(c));
+                put(along_id(0));
+                put(along_id(1));
+            }
+            else if (kind == "errored")
+            {
+                // errored <status> <post class> <step>: CoreTrackView::apply_errored
+                int st, pc;
+                is >> st >> pc;
+                real_type step = rd(is);
+                auto& fx = get_p1(0, 0.01, 1000, 0.01);
+                auto state = fx.make_state(
+                    ParticleId{0}, 1.0, {0.5, 0.25, -1}, {0, 0, 1});
+                CoreTrackView track(
+                    fx.core->host_ref(), state->ref(), ThreadId{0});
+                auto sim = track.make_sim_view();
+                sim.status(static_cast<TrackStatus>(st));
+                sim.reset_step_limit(StepLimit{step, class_action(track, pc)});
+                track.apply_errored();
+                os << "ok " << static_cast<int>(sim.status()) << ' '
+                   << paction_class(track, sim.post_step_action()) << ' '
+                   << hex(sim.step_length()) << ' '
+                   << (sim.along_step_action() ? 1 : 0);
             }
             else if (kind == "steplimit")
             {
